@@ -334,8 +334,16 @@ def _call(model, X, refs_arg, kw, case, raw):
     return out[0], out[1].double(), nw
 
 
+def finding_of(case, what):
+    """stable key of the input class a violation belongs to"""
+    kind = overlap_kind(case['spec']) if case.get('spec') else None
+    if what.startswith('deep_lift_shap raised'):
+        return 'maxpool-dilation-raises' if kind == 'dilated' else ('maxpool-overlap-raises' if kind else 'raises')
+    return 'maxpool-overlapping-windows' if kind else 'generic'
+
+
 def check_net(case, info=None):
-    """-> list of (finding, message)"""
+    """-> list of violation strings"""
     out = []
     kind = overlap_kind(case['spec']) if case.get('spec') else None
     model = model_of(case)           # handed to deep_lift_shap
@@ -343,20 +351,18 @@ def check_net(case, info=None):
     X = make_X(case)
     n, S, A, L, t = case['n'], case['S'], case['A'], case['L'], case['target']
     refs_arg, kw = make_refs(case, X)
-    f_gen = 'generic' if kind is None else 'maxpool-overlapping-windows'
     try:
         attr, refs_p, w1 = _call(model, X, refs_arg, kw, case, False)
         mult, refs_r, w2 = _call(model, X, refs_arg, kw, case, True)
     except Exception as e:
-        f = 'maxpool-dilation-raises' if kind == 'dilated' else ('maxpool-overlap-raises' if kind else 'raises')
-        return [(f, 'deep_lift_shap raised instead of returning attributions (%s model)%s: %s: %s'
+        return [('deep_lift_shap raised instead of returning attributions (%s model)%s: %s: %s'
                  % (kind or 'in-scope', ' ' * 24, type(e).__name__, str(e)[:100]))]
     if tuple(attr.shape) != (n, A, L):
-        return [(f_gen, 'processed shape %s != X shape' % (tuple(attr.shape),))]
+        return [('processed shape %s != X shape' % (tuple(attr.shape),))]
     if tuple(mult.shape) != (n, S, A, L) or tuple(refs_p.shape) != (n, S, A, L):
-        return [(f_gen, 'raw shape %s / references shape %s' % (tuple(mult.shape), tuple(refs_p.shape)))]
+        return [('raw shape %s / references shape %s' % (tuple(mult.shape), tuple(refs_p.shape)))]
     if not (torch.isfinite(attr).all() and torch.isfinite(mult).all()):
-        out.append((f_gen, 'non-finite attribution / multiplier'))
+        out.append(('non-finite attribution / multiplier'))
         return out
     with torch.no_grad():
         fx = clean(X)[:, t]
@@ -378,16 +384,16 @@ def check_net(case, info=None):
     err_r = (lhs_r - rhs_r).abs() / scale_r
     if bool((err_r > rel).any()):
         e, j = divmod(int(err_r.argmax()), S)
-        out.append((f_gen, 'raw clause: sum((x-ref)*multipliers) != f(x)[t]-f(ref)[t] for an example-reference pair: %.12g vs %.12g (example %d, reference %d)' % (lhs_r[e, j], rhs_r[e, j], e, j)))
+        out.append(('raw clause: sum((x-ref)*multipliers) != f(x)[t]-f(ref)[t] for an example-reference pair: %.12g vs %.12g (example %d, reference %d)' % (lhs_r[e, j], rhs_r[e, j], e, j)))
     lhs_p = attr.sum(dim=(1, 2))
     rhs_p = fx - fr_p.mean(dim=1)
     scale_p = 1 + fx.abs() + fr_p.abs().mean(dim=1) + attr.abs().sum(dim=(1, 2))
     err_p = (lhs_p - rhs_p).abs() / scale_p
     if bool((err_p > rel).any()):
         e = int(err_p.argmax())
-        out.append((f_gen, 'processed clause: sum(attributions) != f(x)[t] - mean_j f(ref_j)[t] for an example: %.12g vs %.12g (example %d)' % (lhs_p[e], rhs_p[e], e)))
+        out.append(('processed clause: sum(attributions) != f(x)[t] - mean_j f(ref_j)[t] for an example: %.12g vs %.12g (example %d)' % (lhs_p[e], rhs_p[e], e)))
     if (w1 or w2) and not band:
-        out.append((f_gen, 'warning clause: a RuntimeWarning was emitted for a model inside the property scope: %s' % (w1 + w2)[0]))
+        out.append(('warning clause: a RuntimeWarning was emitted for a model inside the property scope: %s' % (w1 + w2)[0]))
     if info is not None:
         # non-trivial: the rescale rule made a difference w.r.t. the plain gradient
         Xg = X.repeat_interleave(S, 0).clone().requires_grad_()
@@ -421,8 +427,8 @@ def _run_case(rep, case, key, sample=False):
         return
     rep.case(key, nontrivial=info.get('nontrivial', True), section=case['section'],
              sample={k: case[k] for k in ('spec', 'A', 'L', 'n', 'S', 'refs', 'batch_size') if k in case} if sample else None)
-    for finding, what in res:
-        rep.violation(what, case, finding=finding)
+    for what in res:
+        rep.violation(what, case, finding=finding_of(case, what))
     return info
 
 
@@ -482,5 +488,5 @@ def run(rep):
 
 def replay(case):
     if case.get('kind') == 'net':
-        return ['%s: %s' % fw for fw in check_net(case)]
+        return check_net(case)
     return ['unknown replay kind']
